@@ -28,6 +28,7 @@ REPO = os.environ.get("VERIF_REPO", "/repo")
 WORK = os.environ.get("VERIF_WORK", "/var/tmp/fuel-core-verif")
 TARGET = os.environ.get("VERIF_KANI_TARGET", os.path.join(VERIF, ".cache", "kani-target"))
 SHIM = os.path.join(WORK, "shims", "tracing")
+ANYHOW_SHIM = os.path.join(VERIF, "shims", "anyhow")
 NPROC = int(os.environ.get("VERIF_JOBS", str(os.cpu_count() or 8)))
 MEM_LIMIT_KB = int(os.environ.get("VERIF_MEM_GB", "20")) * 1024 * 1024
 
@@ -67,6 +68,8 @@ class Harness:
         self.prop = attrs.get("prop", unit.properties[0])
         self.solver = attrs.get("solver")
         self.timeout = int(attrs.get("timeout", "600"))
+        if os.environ.get("VERIF_TIMEOUT_CAP"):   # development aid only
+            self.timeout = min(self.timeout, int(os.environ["VERIF_TIMEOUT_CAP"]))
         self.bound = attrs.get("bound", "")
         self.expect = attrs.get("expect")              # canary: tag expected to FAIL
         self.extra = attrs.get("extra", "").split() if attrs.get("extra") else []
@@ -271,9 +274,9 @@ def prepare_overlay(units):
     # managed: workspace manifest with the tracing patch
     cargo = open(os.path.join(REPO, "Cargo.toml")).read()
     if "[patch.crates-io]" in cargo:
-        cargo = cargo.replace("[patch.crates-io]", "[patch.crates-io]\ntracing = { path = \"%s\" }" % SHIM, 1)
+        cargo = cargo.replace("[patch.crates-io]", "[patch.crates-io]\ntracing = { path = \"%s\" }\nanyhow = { path = \"%s\" }" % (SHIM, ANYHOW_SHIM), 1)
     else:
-        cargo += "\n[patch.crates-io]\ntracing = { path = \"%s\" }\n" % SHIM
+        cargo += "\n[patch.crates-io]\ntracing = { path = \"%s\" }\nanyhow = { path = \"%s\" }\n" % (SHIM, ANYHOW_SHIM)
     write_if_changed(os.path.join(ov, "Cargo.toml"), cargo)
     cfgp = os.path.join(REPO, ".cargo", "config.toml")
     cfg = open(cfgp).read() if os.path.exists(cfgp) else ""
